@@ -158,6 +158,7 @@ type Engine struct {
 	timeLocs      map[string]*Value
 	pathCover     map[string]bool
 	onceDone      map[*Value]bool
+	conds         map[*Value]*condState
 	syncMaps      map[*Value]*Map
 	schedLog      []schedEv
 	concrete      bool // conformance mode: random concrete inputs, no solver
@@ -876,6 +877,7 @@ func (e *Engine) resetPath() {
 	e.pathCover = map[string]bool{}
 	e.opaqueText = nil
 	e.onceDone = map[*Value]bool{}
+	e.conds = map[*Value]*condState{}
 	e.syncMaps = map[*Value]*Map{}
 	e.schedLog = nil
 	e.pointLog = nil
